@@ -19,3 +19,4 @@ INVARIANT HeadsConsistent
 INVARIANT AppliesCleanly
 INVARIANT EmptyHeadsReturnsAll
 CHECK_DEADLOCK FALSE
+SYMMETRY WriterSym
